@@ -11,10 +11,12 @@ import (
 	"os"
 	"path/filepath"
 	"sync"
+	"sync/atomic"
 	"time"
 
 	"google.golang.org/grpc/metadata"
 
+	"github.com/oxia-db/oxia/common/concurrent"
 	"github.com/oxia-db/oxia/common/constant"
 	"github.com/oxia-db/oxia/proto"
 	"github.com/oxia-db/oxia/server"
@@ -628,4 +630,75 @@ func (c *Cluster) WaitSynced(members []string, head int64, d time.Duration) bool
 		time.Sleep(2 * time.Millisecond)
 	}
 	return false
+}
+
+// FailedElection: the leader is cut off from its followers, takes one write that cannot be committed, and
+// is then asked to lead the next term without any follower: the election cannot complete (no quorum for the
+// entries it holds) and times out. The node stays behind fenced in the new term, with an uncommitted entry at
+// the end of its log. Returns the commit offset its database holds afterwards.
+func (c *Cluster) FailedElection(leader string, members []string, req *proto.WriteRequest) (int64, error) {
+	ln := c.node(leader)
+	if ln == nil || ln.Leader == nil {
+		return -2, errors.New("not the leader")
+	}
+	for _, m := range members {
+		if m != leader {
+			c.disconnect(m)
+		}
+	}
+	reconnect := func() {
+		for _, m := range members {
+			if m != leader {
+				c.reconnect(m)
+			}
+		}
+	}
+	// the write is appended to the leader's log and waits for a quorum that cannot come (WriteBlock would wait
+	// with it); the fencing below fails it
+	var committed atomic.Bool
+	ln.Leader.Write(context.Background(), req, concurrent.NewOnce(func(*proto.WriteResponse) { committed.Store(true) }, func(error) {}))
+	time.Sleep(80 * time.Millisecond)
+	if committed.Load() {
+		reconnect()
+		return -2, errors.New("the write was committed without followers")
+	}
+	c.Term++
+	if _, err := c.newTerm(ln); err != nil {
+		reconnect()
+		return -2, fmt.Errorf("new term on %s: %w", leader, err)
+	}
+	ctx2, cancel2 := context.WithTimeout(context.Background(), 400*time.Millisecond)
+	_, berr := ln.Leader.BecomeLeader(ctx2, &proto.BecomeLeaderRequest{Namespace: constant.DefaultNamespace, Shard: Shard, Term: c.Term,
+		ReplicationFactor: c.RF, FollowerMaps: map[string]*proto.EntryId{}})
+	cancel2()
+	reconnect()
+	if berr == nil {
+		return -2, errors.New("the election succeeded without followers")
+	}
+	db := ln.DB()
+	if db == nil {
+		return -2, errors.New("no database")
+	}
+	return db.ReadCommitOffset()
+}
+
+// Demote: the node's leader controller is closed and a follower controller opened over the same storage (what
+// the shards director does when a request for a follower arrives)
+func (c *Cluster) Demote(name string) error {
+	n := c.node(name)
+	if n == nil || n.Leader == nil {
+		return nil
+	}
+	c.disconnect(name)
+	c.reconnect(name)
+	_ = n.Leader.Close()
+	n.Leader = nil
+	f, err := server.NewFollowerController(nodeConfig, constant.DefaultNamespace, Shard, n.walf, n.kvf)
+	if err != nil {
+		return err
+	}
+	c.mu.Lock()
+	n.Follower = f
+	c.mu.Unlock()
+	return nil
 }
